@@ -109,7 +109,12 @@ class BasicAllocatorWrapper : private BasicAllocator {
   static typename std::enable_if<!amc::is_trivially_relocatable<V>::value, T *>::type Reallocate(
       BasicAllocator &basicAlloc, V *p, size_t oldCapacity, size_t newCapacity, size_t nConstructedElems) {
     T *newPtr = static_cast<T *>(basicAlloc.allocate(newCapacity * sizeof(T)));
-    amc::uninitialized_relocate_n(p, nConstructedElems, newPtr);
+    try {
+      amc::uninitialized_relocate_n(p, nConstructedElems, newPtr);
+    } catch (...) {
+      basicAlloc.deallocate(newPtr, newCapacity * sizeof(T));
+      throw;
+    }
     basicAlloc.deallocate(p, oldCapacity * sizeof(T));
     return newPtr;
   }
